@@ -464,8 +464,11 @@ func (mo *monitor) observe(c *raftsim.Cluster, op string, res raftsim.Result) {
 		mo.v("C18", "witness %d changed role to %d", n.ID, st.Role)
 	}
 	mo.prevRole[n.ID] = st.Role
-	// --- C02: committed entries agree across replicas and never change
-	if !st.EntriesCompacted {
+	// --- C02: committed entries agree across replicas and never change. A commit index
+	// counts once the Update that carries it was taken (persisted): a single-voter leader
+	// advances it in memory while appending, before its own write, and a crash before that
+	// Update takes entry and index back (RaftNet.v D3/D8, C04 apply_not_before_persist).
+	if !st.EntriesCompacted && f[0] == "U" {
 		for i, e := range st.Entries {
 			idx := st.FirstIndex + uint64(i)
 			if idx > st.Committed {
